@@ -64,6 +64,7 @@ type UpConnRec struct {
 	DoneAt    time.Duration
 	AcceptAt  time.Duration
 	FirstDataStep int // global event number of the first byte received (0 = none yet)
+	FirstDataAt   time.Duration
 	End       *simnet.End
 	Script    *UpScript
 	Health    bool // connection made by a health check (closed at once by the prober)
@@ -137,6 +138,7 @@ func (p *ProxyUps) serve(addr string, c net.Conn, end *simnet.End, idx int) {
 				lk()
 				if rec.FirstDataStep == 0 {
 					rec.FirstDataStep = st
+					rec.FirstDataAt = e.S.Elapsed()
 				}
 				rec.Received = append(rec.Received, buf[:n]...)
 				total := len(rec.Received)
